@@ -9,6 +9,8 @@ theorem goodM_mono (cfg : Cfg) (T : List Tid) (t : Tid) (pc : MPc) (h : goodM cf
   cases pc with
   | addAcq w => show w < (T ++ [t]).length; simp only [List.length_append, List.length_singleton]; exact Nat.lt_succ_of_lt h
   | addTStart w => show w < (T ++ [t]).length; simp only [List.length_append, List.length_singleton]; exact Nat.lt_succ_of_lt h
+  | addAcqF w => show w < (T ++ [t]).length; simp only [List.length_append, List.length_singleton]; exact Nat.lt_succ_of_lt h
+  | addTStartF w => show w < (T ++ [t]).length; simp only [List.length_append, List.length_singleton]; exact Nat.lt_succ_of_lt h
   | clrPoll k =>
     cases k with
     | item r =>
